@@ -204,3 +204,31 @@ impl MarlinPST13 {
         }
 //@end
 }
+
+//@lemma props=C02
+// C02 for MarlinPST13::check: the accepted combined value is unique, hence (lemma_acc_v_unique_at) so is each claimed value whose challenge is non-zero
+pub proof fn lemma_pst13_value_unique(vk: &VerifierKey, c: FS, v1: FS, v2: FS, pr: &Proof, rhs: FS)
+    requires vk.g@ != f_zero(), vk.h@ != f_zero(), pair(pst_inner(vk, c, v1, pr), vk.h@) == rhs, pair(pst_inner(vk, c, v2, pr), vk.h@) == rhs
+    ensures v1 == v2
+{
+    lemma_mul_cancel(pst_inner(vk, c, v1, pr), pst_inner(vk, c, v2, pr), vk.h@);
+    let a1 = f_sub(c, f_mul(vk.g@, v1)); let a2 = f_sub(c, f_mul(vk.g@, v2));
+    match pr.random_v { Some(rv) => { lemma_sub_cancel_right(a1, a2, f_mul(vk.gamma_g@, rv@)); } None => {} }
+    lemma_sub_cancel_left(c, f_mul(vk.g@, v1), f_mul(vk.g@, v2));
+    ax_mul_comm(vk.g@, v1); ax_mul_comm(vk.g@, v2);
+    lemma_mul_cancel(v1, v2, vk.g@);
+}
+//@lemma props=C02
+pub proof fn lemma_pst13_check_value_unique_at(vk: &VerifierKey, cs: Seq<&LabeledCommitment<marlin_pc::Commitment>>, point: Seq<Fr>, vs: Seq<Fr>, vs2: Seq<Fr>, pr: &Proof, s: SS, i: int)
+    requires vk.g@ != f_zero(), vk.h@ != f_zero(), vs.len() == vs2.len(), 0 <= i < min(cs.len(), vs.len()),
+        forall|j: int| 0 <= j < min(cs.len(), vs.len()) && j != i ==> vs[j]@ == vs2[j]@,
+        sp_chal(s, marlin_pc::nsq(cs, i as nat)) != f_zero(),
+        // both value vectors accepted by `check` (its postcondition pst13.check.accepts_iff_pairing_equation)
+        pair(pst_inner(vk, marlin_pc::acc_c0(cs, s, min(cs.len(), vs.len())), marlin_pc::acc_v(cs, vs, s, min(cs.len(), vs.len())), pr), vk.h@) == pst_rhs(vk, pr.w@, point, pr.w@.len()),
+        pair(pst_inner(vk, marlin_pc::acc_c0(cs, s, min(cs.len(), vs.len())), marlin_pc::acc_v(cs, vs2, s, min(cs.len(), vs.len())), pr), vk.h@) == pst_rhs(vk, pr.w@, point, pr.w@.len()),
+    ensures vs[i]@ == vs2[i]@
+{
+    let n = min(cs.len(), vs.len());
+    lemma_pst13_value_unique(vk, marlin_pc::acc_c0(cs, s, n), marlin_pc::acc_v(cs, vs, s, n), marlin_pc::acc_v(cs, vs2, s, n), pr, pst_rhs(vk, pr.w@, point, pr.w@.len()));
+    marlin_pc::lemma_acc_v_unique_at(cs, vs, vs2, s, n, i);
+}
